@@ -128,12 +128,20 @@ func (s *PfcpServer) VerifDumpState() VerifDump {
 		for id, q := range x.q {
 			// non-destructive copy of the queue content: rotate through the channel
 			vq := VerifQ{PDR: id}
-			n := len(q)
-			for i := 0; i < n; i++ {
-				p := <-q
-				vq.Pkts = append(vq.Pkts, fmt.Sprintf("%x", p))
-				q <- p
-			}
+			func() {
+				// a queue of a closed session is a closed channel: rotating it would panic
+				defer func() {
+					if recover() != nil {
+						vq.Pkts = append(vq.Pkts, "closed")
+					}
+				}()
+				n := len(q)
+				for i := 0; i < n; i++ {
+					p := <-q
+					vq.Pkts = append(vq.Pkts, fmt.Sprintf("%x", p))
+					q <- p
+				}
+			}()
 			v.Q = append(v.Q, vq)
 		}
 		sort.Slice(v.Q, func(i, j int) bool { return v.Q[i].PDR < v.Q[j].PDR })
